@@ -13,6 +13,10 @@ import (
 )
 
 var propRe = regexp.MustCompile(`^C\d\d$`)
+var retSuffixRe = regexp.MustCompile(`@ret\d+$`)
+
+// stableName drops the return-site ordinal so that findings and baseline groups survive added/removed returns.
+func stableName(n string) string { return retSuffixRe.ReplaceAllString(n, "") }
 
 // labelProps extracts property ids from a label such as "C01+C02.attr.exact".
 func labelProps(label string) []string {
@@ -362,7 +366,8 @@ func checkProperty(rc *runCtx, p, tier string, seed int, verif string, bl Baseli
 	var viols []viol
 	var known []string
 	var claimed, discharged int
-	var undecided, samples []sample
+	var undecided []sample
+	samples := []sample{}
 	perSolver := map[string]int{}
 	var solverSeconds float64
 	var slowest sample
@@ -373,6 +378,7 @@ func checkProperty(rc *runCtx, p, tier string, seed int, verif string, bl Baseli
 			continue
 		}
 		now[o.Name] = true
+		now[stableName(o.Name)] = true
 		r := byObl[o]
 		fns[shortKey(o.Fn)] = true
 		sm := sample{Obligation: strings.TrimPrefix(o.Name, modulePath), Kind: o.Kind, Answer: r.Status, Solver: r.Solver, Seconds: round3(r.Seconds), SMTBytes: r.QueryLen}
@@ -384,7 +390,7 @@ func checkProperty(rc *runCtx, p, tier string, seed int, verif string, bl Baseli
 			slowest = sm
 		}
 		_, inBase := bl.Obligations[o.Name]
-		_, isOpen := open[o.Name]
+		_, isOpen := open[stableName(o.Name)]
 		ok := r.Status == "discharged" && !vacuous[o.Fn]
 		switch {
 		case ok:
@@ -395,7 +401,7 @@ func checkProperty(rc *runCtx, p, tier string, seed int, verif string, bl Baseli
 				samples = append(samples, sm)
 			}
 		case isOpen:
-			known = append(known, fmt.Sprintf("KNOWN-FINDING: property=%s obligation=%s %s", p, strings.TrimPrefix(o.Name, modulePath), open[o.Name].What))
+			known = append(known, fmt.Sprintf("KNOWN-FINDING: property=%s obligation=%s %s", p, strings.TrimPrefix(o.Name, modulePath), open[stableName(o.Name)].What))
 		case inBase || (o.Kind != "panic" && !strings.HasPrefix(o.Label, "nonnil.")):
 			claimed++
 			why := r.Status
@@ -411,10 +417,10 @@ func checkProperty(rc *runCtx, p, tier string, seed int, verif string, bl Baseli
 	// baseline obligations that disappeared
 	for _, name := range sortedKeys(bl.Obligations) {
 		be := bl.Obligations[name]
-		if !has(be.Props) || now[name] {
+		if !has(be.Props) || now[name] || now[stableName(name)] {
 			continue
 		}
-		if _, isOpen := open[name]; isOpen {
+		if _, isOpen := open[stableName(name)]; isOpen {
 			continue
 		}
 		switch be.Kind {
@@ -521,6 +527,13 @@ func trustedBase(rc *runCtx) []string {
 		}
 	}
 	tb = append(tb, "assumed stub contracts (external functions, emitted as call-site facts): "+strings.Join(stubs, ", "))
+	var axioms []string
+	for _, k := range sortedKeys(rc.w.cs.Lemmas) {
+		if rc.w.cs.Lemmas[k].Axiom {
+			axioms = append(axioms, k)
+		}
+	}
+	tb = append(tb, "axioms about uninterpreted spec functions (used only through explicit ground instances): "+strings.Join(axioms, ", "))
 	tb = append(tb, "external functions treated as side-effect free with unconstrained results: "+strings.Join(rc.w.purePats, " "))
 	return tb
 }
